@@ -239,6 +239,8 @@ class Options:
     replay: bool = True
     max_input_elems: int = 4096
     bindings: dict | None = None
+    max_unknown: int = 2
+    budget_s: float = 40.0
 
 
 def model_io(model, prog):
@@ -374,6 +376,8 @@ def validate(prog, cj, model, shapes, opts: Options, ref_fn=None, pre=None) -> d
         max_queries=opts.max_queries,
         stats=stats,
         obligations=octx.obligations,
+        max_unknown=opts.max_unknown,
+        budget_s=opts.budget_s,
     )
     out["stats"] = stats.as_dict()
     out["selfcheck"] = sel
